@@ -8,7 +8,8 @@
    handle) has a pure plan in every state, and so has every removal / update after which the model's rows are what
    they were (e.g. a removal whose query selects nothing: C15_remove_selecting_nothing). *)
 From Coq Require Import List ZArith NArith Bool.
-From TF Require Import Base Query Index DB Spec IO proofs.IOP proofs.PlanP proofs.PureP proofs.IndexDefs proofs.DBReadP.
+From TF Require Import Base Query Index DB Spec IO proofs.IOP proofs.PlanP proofs.PureP proofs.IndexDefs proofs.DBReadP proofs.IOGenP.
+From TF Require gen.IOGen.
 Import ListNotations.
 
 Theorem C15_reads_pure : forall old p k, pure_plan p ->
@@ -41,9 +42,24 @@ Example C15_reads_listed : forallb is_read [Search (QNoop AMeas) None true; Coun
     Handle [] HLen; Handle [] HIter; Handle [] (HAll true); Handle [] (HSearch (QNoop AMeas) true); Handle [] HGetTimestamps] = true.
 Proof. reflexivity. Qed.
 
+(* the I/O calls REGENERATED from tinyflux/storages.py on every run (gen/IOGen.v: symbolic execution of CSVStorage.append, _write([]) / reset,
+   _init_temp_storage, _swap_temp_with_primary, _cleanup_temp_storage, __iter__ along their success path) are the scripts of the model, for every
+   plan of an operation: every theorem of this file about script_of is a theorem about the calls the source makes now *)
+Theorem C15_source_scripts_are_the_model : forall old p, gen_script_of old p = script_of old p.
+Proof. exact gen_script_of_eq. Qed.
+(* ... and every handle is opened with the storage's own text options: the temporary file and the handle reopened after a rewrite use the
+   storage's encoding, newline translation stays off, the temporary file stays until it is removed, the reopen never truncates *)
+Theorem C15_source_handles_keep_text_options :
+  IOGen.temp_uses_storage_encoding = true /\ IOGen.temp_untranslated_newlines = true /\ IOGen.temp_kept_until_removed = true /\
+  IOGen.reopen_uses_storage_encoding = true /\ IOGen.reopen_uses_storage_newline = true /\ IOGen.reopen_never_truncates = true /\
+  IOGen.reopen_same_file = true /\ IOGen.open_uses_given_options = true /\ IOGen.newline_default_untranslated = true.
+Proof. exact gen_handle_options. Qed.
+
 Print Assumptions C15_reads_pure.
 Print Assumptions C15_read_leaves_file_and_rows.
 Print Assumptions C15_unchanged_write_leaves_file.
 Print Assumptions C15_remove_selecting_nothing.
 Print Assumptions C15_no_temp_left.
 Print Assumptions C15_clean_after_every_operation.
+Print Assumptions C15_source_scripts_are_the_model.
+Print Assumptions C15_source_handles_keep_text_options.
